@@ -491,7 +491,7 @@ route (uses / nested uses / ignore veto) or a string-prefix sibling is present; 
         "configs rejected with a graph error are not judged here (C03/C09)".into(),
     ];
     ctx.drive_all("golden", golden(), "golden regression cases", check);
-    let n = ctx.n(12_000, 1_000_000);
+    let n = ctx.n(12_000, 500_000);
     ctx.drive("inproc", || strategy(10), n, check);
     let n2 = ctx.n(1_000, 50_000);
     ctx.drive("inproc-wide", || strategy(24), n2, check);
